@@ -65,6 +65,59 @@ type sample struct {
 type history struct {
 	calls   []call
 	samples [][]sample // per observer, in program order
+	extra   []finding  // verdicts reached while driving the run (timeout waits)
+}
+
+// ---- elapsed time without a wall-clock threshold: the heartbeat rule
+//
+// A goroutine of this process sleeps in 50 ms slices and counts them.  n completed slices prove that at least n*50 ms
+// passed AND that this process's runtime fired n later timers and scheduled their goroutine meanwhile.  A wallet timer
+// armed for T seconds before those slices began is earlier in the same timer heap; if the heartbeat has measured
+// T + relockGrace (40 s, i.e. 800 further timer expirations) and the wallet is still unlocked, the timeout did not
+// close the window - however slow or loaded the machine is.  If the heartbeat itself cannot make that progress within
+// the watchdog, the run is inconclusive.
+const (
+	hbSlice     = 50 * time.Millisecond
+	relockGrace = 40 * time.Second
+)
+
+var (
+	hbTicks atomic.Int64
+	hbOnce  sync.Once
+)
+
+func heartbeat() int64 {
+	hbOnce.Do(func() {
+		go func() {
+			for {
+				time.Sleep(hbSlice)
+				hbTicks.Add(1)
+			}
+		}()
+	})
+	return hbTicks.Load()
+}
+
+// relockLimit: the heartbeat tick count at which a window opened by an unlock with Timeout=timeoutS (which had
+// returned when the tick count was `since`) has demonstrably expired, grace included.
+func relockLimit(since, timeoutS int64) int64 {
+	return since + (timeoutS*int64(time.Second)+int64(relockGrace))/int64(hbSlice) + 1
+}
+
+// waitRelock polls seenLocked (about every millisecond) until it returns true; it returns false once the heartbeat
+// has reached limit.
+func waitRelock(limit int64, seenLocked func() bool) bool {
+	start, giveUp := heartbeat(), time.Now().Add(10*relockGrace)
+	for !seenLocked() {
+		if heartbeat() >= limit {
+			return false
+		}
+		if time.Now().After(giveUp) {
+			lib.Inconclusive("C38: the heartbeat of the test process made only %d of %d ticks in %v", heartbeat()-start, limit-start, 10*relockGrace)
+		}
+		time.Sleep(time.Millisecond)
+	}
+	return true
 }
 
 func (h *history) concurrentWithChpass(x, y uint64) bool { // some password change in flight during [x, y]
@@ -137,6 +190,7 @@ type finding struct {
 }
 
 func (h *history) analyse() (fs []finding) {
+	fs = append(fs, h.extra...)
 	add := func(kind, what string, n int) {
 		for i := range fs {
 			if fs[i].Kind == kind {
@@ -431,31 +485,32 @@ func execute(c runCase) *history {
 	}
 	if c.AwaitTimeout != "" {
 		// the window of an unlock with Timeout=1s must be closed by the wallet itself; observers keep sampling.
-		// "quiet": nothing else is sent, so nothing can interfere with the timer: wait until the wallet is seen locked
-		//          (a watchdog expiry is inconclusive: wall-clock is not an oracle);
-		// "busy":  failing password changes keep coming while waiting (timer against ProcWalletSetPasswd); the wait is
-		//          bounded by a request count and ends with an explicit lock: no verdict from "not yet relocked".
-		u, _ := w.do(-2, 0, op{Kind: "unlock", Timeout: 1}, false)
-		h.calls = append(h.calls, *u)
+		// An explicit lock first closes every earlier window, so that afterwards only the timed unlock can justify
+		// "unlocked".  "quiet": nothing else is sent; "busy": failing password changes keep coming for the first 4000
+		// requests of the wait.  "Never relocks" becomes a verdict through the heartbeat rule (waitRelock).
+		l, _ := w.do(-2, 0, op{Kind: "lock"}, false)
+		u, _ := w.do(-2, 1, op{Kind: "unlock", Timeout: 1}, false)
+		h.calls = append(h.calls, *l, *u)
 		if u.OK {
-			deadline := time.Now().Add(watchdog)
-			for i := 1; look("IsWalletLocked() between requests"); i++ {
-				if c.AwaitTimeout == "quiet" && time.Now().After(deadline) {
-					lib.Inconclusive("C38: wallet still unlocked %v after an unlock with a 1 s timeout and no other request (wall-clock is not an oracle)", watchdog)
+			i := 1
+			relocked := waitRelock(relockLimit(heartbeat(), 1), func() bool {
+				if !look("IsWalletLocked() between requests") {
+					return true
 				}
-				if c.AwaitTimeout == "busy" {
-					if i > 4000 {
-						lib.Class("await_busy_not_relocked")
-						l, _ := w.do(-2, i, op{Kind: "lock"}, false)
-						h.calls = append(h.calls, *l)
-						break
-					}
+				if i++; c.AwaitTimeout == "busy" && i < 4000 {
 					s, _ := w.do(-2, i, op{Kind: "chpassWrong"}, false)
 					h.calls = append(h.calls, *s)
 				}
-				time.Sleep(time.Millisecond)
+				return false
+			})
+			if !relocked {
+				kind := "other"
+				if c.AwaitTimeout == "busy" { // signature of the lost-lock finding: the timer fired against in-flight password changes
+					kind = idLostLock
+				}
+				h.extra = append(h.extra, finding{kind, fmt.Sprintf("wallet still unlocked after the test process's own 50 ms heartbeat measured more than %v since an unlock with Timeout=1s returned, with no later unlock (%s wait)", relockGrace, c.AwaitTimeout), 1})
 			}
-			for i := 0; i < 100; i++ {
+			for i := 0; i < 100 && relocked; i++ {
 				s, _ := w.do(-2, 100000+i, op{Kind: "chpassWrong"}, false)
 				h.calls = append(h.calls, *s)
 			}
